@@ -6,6 +6,7 @@ package scen
 import (
 	"context"
 	"fmt"
+	"net/http"
 	"net/http/httptest"
 	"os"
 	"strings"
@@ -29,6 +30,9 @@ type Ctl struct {
 	ctxs    map[int]context.Context
 	execs   map[int]int
 	entered map[int]int
+	exited  map[int]bool
+	// Reaction: how long a blocked handler keeps running after it noticed its context was cancelled
+	Reaction time.Duration
 }
 
 // SH is the server-side handler of the scenarios.
@@ -38,7 +42,7 @@ type SH struct {
 }
 
 func NewSH(rt *hk.Runtime) *SH {
-	return &SH{RT: rt, C: &Ctl{RT: rt, release: map[int]chan struct{}{}, ctxs: map[int]context.Context{}, execs: map[int]int{}, entered: map[int]int{}}}
+	return &SH{RT: rt, C: &Ctl{RT: rt, release: map[int]chan struct{}{}, ctxs: map[int]context.Context{}, execs: map[int]int{}, entered: map[int]int{}, exited: map[int]bool{}}}
 }
 
 func (h *Ctl) relChan(tok int) chan struct{} {
@@ -90,6 +94,19 @@ func (h *Ctl) Execs(tok int) int {
 	h.mu.Lock()
 	defer h.mu.Unlock()
 	return h.execs[tok]
+}
+
+func (h *Ctl) Exited(tok int) bool {
+	h.mu.Lock()
+	defer h.mu.Unlock()
+	return h.exited[tok]
+}
+
+func (h *Ctl) exit(tok int, cause string) {
+	h.mu.Lock()
+	h.exited[tok] = true
+	h.mu.Unlock()
+	h.RT.Log("h.exit", "tok", tok, "cause", cause)
 }
 
 func (h *Ctl) Entered(tok int) int {
@@ -150,12 +167,35 @@ func (h *SH) Block(ctx context.Context, tok int) (int, error) {
 	}
 	select {
 	case <-rel:
-		h.RT.Log("h.exit", "tok", tok, "cause", "released")
+		h.C.exit(tok, "released")
 		return tok, nil
 	case <-ctx.Done():
-		h.RT.Log("h.exit", "tok", tok, "cause", "ctx")
+		if h.C.Reaction > 0 {
+			time.Sleep(h.C.Reaction)
+		}
+		h.C.exit(tok, "ctx")
 		return 0, ctx.Err()
 	}
+}
+
+// BlockBig is Block with a response of `size` bytes.
+func (h *SH) BlockBig(ctx context.Context, tok int, size int) (string, error) {
+	_, err := h.Block(ctx, tok)
+	return strings.Repeat("y", size), err
+}
+
+// NoteBlock is a notification whose handler blocks like Block (it has no context parameter of its own
+// to give away, so it captures the one it gets).
+func (h *SH) NoteBlock(ctx context.Context, tok int) {
+	h.Block(ctx, tok)
+}
+
+// CallBackBlock makes a reverse call, then blocks like Block.
+func (h *SH) CallBackBlock(ctx context.Context, tok int) (int, error) {
+	if rc, ok := jsonrpc.ExtractReverseClient[Rev](ctx); ok {
+		rc.Ident(ctx, tok)
+	}
+	return h.Block(ctx, tok)
 }
 
 func (h *SH) Note(tok int) { h.C.enter(nil, "Note", tok) }
@@ -167,6 +207,7 @@ func (h *SH) Sub(ctx context.Context, tok int, n int) (<-chan int, error) {
 	h.RT.Log("h.subch", "tok", tok, "hp", out)
 	go func() {
 		defer close(out)
+		defer h.C.exit(tok, "stream-end")
 		for i := 0; n < 0 || i < n; i++ {
 			select {
 			case out <- tok*1000000 + i:
@@ -208,6 +249,9 @@ type CL struct {
 	Note       func(int)                                `notify:"true"`
 	Sub        func(context.Context, int, int) (<-chan int, error)
 	CallBack   func(context.Context, int) (int, error)
+	BlockBig      func(context.Context, int, int) (string, error)
+	NoteBlock     func(int) `notify:"true"`
+	CallBackBlock func(context.Context, int) (int, error)
 }
 
 // RevH is the handler a client registers for reverse calls.
@@ -221,6 +265,8 @@ type Env struct {
 	Srv    *jsonrpc.RPCServer
 	TS     *httptest.Server
 	PX     *px.Proxy
+	SrvCtx    context.Context
+	SrvCancel context.CancelFunc
 	closed int32
 	// SlowClose: the HTTP server did not finish its handlers within 3s of all connections being closed
 	SlowClose bool
@@ -237,7 +283,11 @@ func NewEnv(seed int64, delayMode int32, sopts ...jsonrpc.ServerOption) (*Env, e
 	e := &Env{RT: rt, H: NewSH(rt)}
 	e.Srv = jsonrpc.NewServer(sopts...)
 	e.Srv.Register("SH", e.H)
-	e.TS = httptest.NewServer(e.Srv)
+	// the request context of every connection is ours to cancel ("the server shuts the connection down")
+	e.SrvCtx, e.SrvCancel = context.WithCancel(context.Background())
+	e.TS = httptest.NewServer(http.HandlerFunc(func(w http.ResponseWriter, r *http.Request) {
+		e.Srv.ServeHTTP(w, r.WithContext(e.SrvCtx))
+	}))
 	var err error
 	e.PX, err = px.New(e.TS.Listener.Addr().String())
 	if err != nil {
@@ -255,6 +305,7 @@ func (e *Env) Close() {
 		return
 	}
 	e.RT.ReleaseAll()
+	e.SrvCancel()
 	e.PX.Close()
 	t0 := time.Now()
 	done := make(chan struct{})
